@@ -43,7 +43,7 @@ CHECKS = {
              "answer (attribution, default scheme, cost of new hashes, needs_update, the three verify_and_update outcomes, fixed point of "
              "repeated logins, independence of the order in which the lazily built record caches were filled) is compared with an independent "
              "~200-line PolicyModel; costs come from an independent regular-expression field extractor, never from passlib's parsers.",
-        note="<=5 schemes from a 43-scheme cheap palette (incl. {CRYPT}- and bcrypt$-prefixed wrappers), categories admin/staff (+ an unknown one), <=40 ops, well-formed configurations only. "
+        note="<=5 schemes from a 43-scheme cheap palette (incl. {CRYPT}- and bcrypt$-prefixed wrappers), given by name or (one of them, 20% of runs) as a pre-configured hasher object; the 'rounds' option and bcrypt_sha256's version option included, categories admin/staff (+ an unknown one), <=40 ops, well-formed configurations only. "
              "Exact vary_rounds ranges are not modelled (only: inside window and hard limits). Trusted: PolicyModel (refmodels/policy.py), extractor.",
         design_ref="DESIGN.md section 4 and Appendix B, C04"),
     "C06": dict(
@@ -65,8 +65,8 @@ CHECKS = {
         design_ref="DESIGN.md section 4, C06"),
     "C08": dict(
         level="exploration",
-        technique="deterministic simulation with storage-fault injection on durable records (byte substitution/loss/duplication/insertion, torn tail, misdirected record, field swap, NUL/non-ASCII, bytes for text); thorough tier enumerates the single-fault neighbourhood; independent field extractor as oracle",
-        text="Stored hashes of a generated user table (45-format palette incl. sun_md5_crypt, fshp, the LDAP / Django / MS-SQL / Oracle / grub / "
+        technique="deterministic simulation with storage-fault injection on durable records (byte substitution/loss/duplication/insertion, torn tail, misdirected record, field swap, NUL/non-ASCII, numeric field rewritten to an aliasing value, bytes for text); thorough tier enumerates the single-fault neighbourhood; independent field extractor as oracle",
+        text="Stored hashes of a generated user table (47-format palette incl. sun_md5_crypt, fshp, scram (also through verify(full=True)), cisco_type7, the LDAP / Django / MS-SQL / Oracle / grub / "
              "Atlassian families and {CRYPT}- / bcrypt$-prefixed wrappers; optional unix_disabled / plaintext at the end) are damaged the way "
              "storage damages records and pushed through the login path -- identify, verify, needs_update, verify_and_update on the bare handler "
              "and on the context, as text and bytes. identify must answer without raising; everything else answers or raises ValueError/TypeError; "
@@ -90,7 +90,7 @@ CHECKS = {
              "node is compared with a sequential model of using(): cost = default clipped into the window (or inside it when varying), salt size, "
              "ident and algorithm variant (fshp variant, bcrypt_sha256 version, scrypt block_size / parallelism as carried by the hash), truncation policy, "
              "needs_update exactly outside the window, ValueError beyond hard limits when strict, clamped when relaxed, never a hash outside them.",
-        note="Which inconsistent min/max/default combinations must be refused is not modelled (a refusal is always accepted). 33-hasher palette; scram, sun_md5_crypt and "
+        note="Which inconsistent min/max/default combinations must be refused is not modelled (a refusal is always accepted). 34-hasher palette (incl. cisco_type7's integer salt); scram, sun_md5_crypt and "
              "argon2 are outside it. Interleaving is at operation granularity (line-level interleaving of using() itself is C19's scheduler, not used here).",
         design_ref="DESIGN.md section 4, C09"),
     "C10": dict(
@@ -169,8 +169,8 @@ CHECKS = {
         text="Account records (a hash of any palette scheme, None, empty, a bare marker, either marker style with an embedded original, a "
              "Django-style unusable password) evolve under disable (with/without the current hash), disable again, enable, logins with the "
              "right / wrong / empty password and with the record text itself, is_enabled, with unix_disabled (markers '!'/'*', configured "
-             "or default) or django_disabled at a random list position (optionally with plaintext / ldap_plaintext listed last, which also claims "
-             "marker-prefixed text), and with policy updates and restarts in between. A reference grammar decides every answer; which scheme "
+             "or default) or django_disabled at a random list position (optionally with the other disabled-account handler behind it, and with plaintext / "
+             "ldap_plaintext listed last, which also claims marker-prefixed text); records are handed over as text or bytes, and with policy updates and restarts in between. A reference grammar decides every answer; which scheme "
              "owns a record is computed without the context (first configured scheme whose own identify() claims it) and the context's "
              "identify() is judged against it; 'verification against None costs a dummy verification' is observed deterministically as digest "
              "computations of the default scheme counted through a counting subclass given in schemes= (one per call, one more right after "
@@ -183,7 +183,7 @@ CHECKS = {
         level="exploration",
         technique="deterministic simulation of real threads: seeded baton-passing scheduler pre-empting at sys.settrace line/opcode events (sticky walk, PCT, hot-spot, uniform, park-one-thread-mid-operation), fork-per-run fresh first-use state, cooperative locks; per-thread outcome vs single-thread outcome",
         text="Each run forks a process in which nothing has been used yet, builds one first-use object (LazyCryptContext with/without "
-             "onload, a shipped preset, a multi-backend hasher, a lazy base64 engine, an unloaded registry name, a context's record "
+             "onload or with an onload that fails once, a shipped preset, a multi-backend hasher, a lazy base64 engine, an unloaded registry name, a context's record "
              "caches, the digest-info cache, passlib.pwd's word sets, a libpass context) or an initialised shared context with a "
              "non-reentrant crypt(3) model, and lets 2-3 real "
              "threads make their first calls (for the registry also: sibling names hosted by one not-yet-imported module, first "
